@@ -64,8 +64,9 @@ func (r *newRevisionReconciler) Reconcile(ctx context.Context,
 		"collisionRev", conflictingObjectSet.GetRevision(),
 		"latestRev", latestRevisionNumber)
 	controllerRef := metav1.GetControllerOf(conflictingObjectSet.ClientObject())
+	// A just created ObjectSet has not reported its revision, yet.
 	if !conflictingObjectSet.IsArchived() &&
-		conflictingObjectSet.GetRevision() >= latestRevisionNumber &&
+		(conflictingObjectSet.GetRevision() == 0 || conflictingObjectSet.GetRevision() >= latestRevisionNumber) &&
 		controllerRef != nil &&
 		controllerRef.UID == objectDeployment.ClientObject().GetUID() &&
 		equality.Semantic.DeepEqual(newObjectSet.GetTemplateSpec(), conflictingObjectSet.GetTemplateSpec()) {
